@@ -116,6 +116,8 @@ type Script struct {
 	AliasInAck func(u *UpStream, ch *ChunkRec) bool
 	// ReleaseHeld is called at quiescence with the held results of a stream; it sends them in whatever shape it likes.
 	ReleaseHeld func(b *Broker, c *BConn, u *UpStream)
+	// AfterSend is called after a message was written to the client (e.g. to cut the link once it was delivered).
+	AfterSend func(b *Broker, c *BConn, m message.Message)
 	DownOpenResult   func(c *BConn, req *message.DownstreamOpenRequest) message.ResultCode
 	DownResumeResult func(c *BConn, d *DownStream, attempt int) message.ResultCode
 	// OnMessage is called for every received message before default processing; return true to skip the default.
@@ -290,6 +292,9 @@ func (b *Broker) Send(c *BConn, m message.Message) bool {
 		return false
 	}
 	b.ev(c, "tx", m, "")
+	if b.S.AfterSend != nil {
+		b.S.AfterSend(b, c, m)
+	}
 	return true
 }
 
